@@ -37,6 +37,7 @@ import unified_planning.engines.mixins as mixins
 from unified_planning.model.action import DurativeAction, InstantaneousAction
 from unified_planning.model.effect import Effect, EffectKind, SimulatedEffect
 from unified_planning.model.fnode import FNode
+from unified_planning.model.fluent import get_all_fluent_exp
 from unified_planning.model.metrics import PlanQualityMetric, MinimizeActionCosts
 from unified_planning.model.state import UPState
 from unified_planning.model.timing import TimeInterval, TimepointKind, Timing
@@ -613,7 +614,22 @@ class TimeTriggeredPlanValidator(engines.engine.Engine, mixins.PlanValidatorMixi
                 )
                 next_id += 1
 
-        for invariant in problem.state_invariants:
+        # State invariants and bounded numeric types (checked as invariants, as the
+        # UPSequentialSimulator does) must hold in every state of the execution
+        invariants: List[FNode] = list(problem.state_invariants)
+        for f in problem.fluents:
+            f_type = f.type
+            if f_type.is_int_type() or f_type.is_real_type():
+                lower_bound = f_type.lower_bound  # type: ignore[attr-defined]
+                upper_bound = f_type.upper_bound  # type: ignore[attr-defined]
+                if lower_bound is None and upper_bound is None:
+                    continue
+                for f_e in get_all_fluent_exp(problem, f):
+                    if lower_bound is not None:
+                        invariants.append(em.LE(lower_bound, f_e))
+                    if upper_bound is not None:
+                        invariants.append(em.LE(f_e, upper_bound))
+        for invariant in invariants:
             durative_conditions.append(
                 (
                     (Fraction(0), plan_duration, False),
@@ -805,7 +821,9 @@ class TimeTriggeredPlanValidator(engines.engine.Engine, mixins.PlanValidatorMixi
                             calculated_interpreted_functions=se.if_values,
                         )
 
-        for g in problem.goals:
+        # the goals, and the invariants too, must hold in the final state (the interval
+        # check above stops at the state before the last happening's effects)
+        for g in problem.goals + invariants:
             try:
                 is_satisfied = self._check_condition(
                     state=last_state, se=se, condition=g
